@@ -843,3 +843,10 @@ Theorem C17_fmt_nonvacuous : fmt_dispatch 19 15 = true /\ fmt_dispatch 19 16 = f
   write_chunk (10 ^ 19) 16 ((10 ^ 19) ^ 16 - 1) = Ok tt /\ prepared_word 10 41 1 (2 ^ 64 - 1) = Ok 20 /\ prepared_word 3 41 40 (2 ^ 64 - 1) = Ok 41.
 Proof. exact fmt_medium_example. Qed.
 Print Assumptions C17_fmt_nonvacuous.
+
+(** fmt/power_two.rs PreparedLarge: `len * WORD_BITS - leading_zeros` and `width * log_radix - (len - 1) * WORD_BITS` do not underflow and
+    the first `bits` lies in (0, WORD_BITS + log_radix): the `as u32` cast is lossless and the digit loop starts inside the top word *)
+Theorem C17_fmt_pow2_first_bits : forall len w lz lr : Z, 1 <= len -> 0 <= lz < w -> 1 <= lr -> w + lr <= 2 ^ 32 ->
+  exists bits : Z, pow2_first_bits len w lz lr = Ok bits /\ 0 < bits < w + lr.
+Proof. exact pow2_first_bits_ok. Qed.
+Print Assumptions C17_fmt_pow2_first_bits.
